@@ -178,7 +178,7 @@ class DataGen(object):
     def block_input(self):
         r = self.r
         line = r.random() < 0.3
-        prompt = r.choice([None, "NAME", "X,Y", ""])
+        prompt = r.choice([None, "NAME", "X,Y", "", "READY? ", "? ", "WHY?", "A;B", " ", "N: "])
         if line:
             tg = [("var", "I$")]
             self.inputs.append(r.choice(["HELLO THERE", "A,B", ""]))
